@@ -286,6 +286,15 @@ func (db *DB) PutBytes(keyBytes, valBytes []byte) error {
 			return ErrAlreadyClosed
 		}
 
+		// a full memstore is rotated out before this call does anything: once the mutation is logged and applied there is
+		// nothing left that could fail, so a call that returns an error never has an effect
+		if db.memStore.EstimatedSizeInBytes() > db.memstoreMaxSize {
+			err = db.rotateWalAndFlushMemstore()
+			if err != nil {
+				return err
+			}
+		}
+
 		if db.enableAsyncWAL {
 			err = db.wal.Append(walBytes)
 			if err != nil {
@@ -298,15 +307,7 @@ func (db *DB) PutBytes(keyBytes, valBytes []byte) error {
 			}
 		}
 
-		err = db.memStore.Upsert(keyBytes, valBytes)
-		if err != nil {
-			return err
-		}
-
-		if db.memStore.EstimatedSizeInBytes() > db.memstoreMaxSize {
-			return db.rotateWalAndFlushMemstore()
-		}
-		return nil
+		return db.memStore.Upsert(keyBytes, valBytes)
 	}()
 }
 
